@@ -885,3 +885,28 @@ M("c14-tree-only-ranks-by-edge-length", "C14", "cola/libdialect/hola.cpp",
 M("c14-addnetwork-resets-shared-lookups", "C14", "cola/libdialect/trees.cpp",
   "void Tree::addNetwork(Graph &G, NodesById &treeNodes, EdgesById &treeEdges) {\n", "void Tree::addNetwork(Graph &G, NodesById &treeNodes, EdgesById &treeEdges) {\n    treeEdges.clear();\n",
   mention=["MERGE-JOIN", "addNetwork"])
+
+# ---------------------------------------------------------------- round g (c10e c03e)
+M("c10-fixed-route-middle-segments-shiftable", "C10", "cola/libavoid/orthogonal.cpp",
+  "                if ((*curr)->hasFixedRoute())\n                {\n                    // The user has specified this route, so none of its",
+  "                if (false && (*curr)->hasFixedRoute())\n                {\n                    // The user has specified this route, so none of its", mention=["FIXED-ROUTE-NOT-SHIFTABLE"])
+M("c10-straight-connectors-left-out", "C10", "cola/libavoid/orthogonal.cpp",
+  "        Polygon& displayRoute = (*curr)->displayRoute();\n        // Determine all line segments that we are interested in shifting.",
+  "        Polygon& displayRoute = (*curr)->displayRoute();\n        if (!nudgeFinalSegments && (displayRoute.size() < 3)) continue;\n        // Determine all line segments that we are interested in shifting.",
+  mention=["SEGMENTS-ALL-REPRESENTED"])
+M("c10-unifying-pass-not-clamped", "C10", "cola/libavoid/orthogonal.cpp",
+  "            newPos = std::max(newPos, minSpaceLimit);\n            newPos = std::min(newPos, maxSpaceLimit);",
+  "            if (!justUnifying) {\n            newPos = std::max(newPos, minSpaceLimit);\n            newPos = std::min(newPos, maxSpaceLimit); }", mention=["FIXED-STAYS"])
+M("c03-hyperedge-segments-of-last-tree-only", "C03", "cola/libavoid/hyperedgeimprover.cpp",
+  "        m_all_shift_segments.insert(m_all_shift_segments.begin(),\n                segments.begin(), segments.end());", "        m_all_shift_segments.assign(segments.begin(), segments.end());",
+  mention=["HYPEREDGE-SEGMENTS-ALL"])
+M("c03-mtst-through-foreign-pins", "C03", "cola/libavoid/mtst.cpp",
+  "        if (other->id.isConnPt() && !realVert->id.isDummyPinHelper() &&", "        if (false && other->id.isConnPt() && !realVert->id.isDummyPinHelper() &&", mention=["HYPEREDGE-AVOIDS-FOREIGN-POINTS"])
+M("c12-segment-drags-terminal", "C12", "cola/libavoid/hyperedgeimprover.cpp",
+  "                            isImmovable = true;\n", "", mention=["SHIFT-TAKES-IN-IMMOVABLE"])
+MUTANTS.append({"id": "c10-neutral-fixed-route-test-in-segment-class", "prop": "C10", "expect": "silent", "mention": [], "tu": None, "edits": [
+    {"file": "cola/libavoid/orthogonal.cpp", "old": "            else if (fixed)\n            {\n                // Fixed segments shouldn't get moved.", "new": "            else if (fixed || connRef->hasFixedRoute())\n            {\n                // Fixed segments shouldn't get moved.", "count": 1},
+    {"file": "cola/libavoid/orthogonal.cpp", "old": "        void updatePositionsFromSolver(const bool justUnifying)\n        {\n            if (fixed)\n", "new": "        void updatePositionsFromSolver(const bool justUnifying)\n        {\n            if (fixed || connRef->hasFixedRoute())\n", "count": 1}]})
+M("c10-zigzag-position-thrown-away", "C10", "cola/libavoid/orthogonal.cpp",
+  "        void updatePositionsFromSolver(const bool justUnifying)\n        {\n            if (fixed)\n", "        void updatePositionsFromSolver(const bool justUnifying)\n        {\n            if (fixed || zigzag())\n",
+  mention=["FIXED-DECISION-CONSISTENT"])
